@@ -80,3 +80,14 @@ class Note:
 
     any: List[object] = field(default_factory=list, metadata={"type": "Wildcard", "namespace": "##any"})
     lang: Optional[str] = field(default=None, metadata={"type": "Attribute"})
+
+
+@dataclass
+class HMixedTyped:
+    """Mixed content next to a simple typed element field."""
+
+    class Meta:
+        name = "holder"
+
+    flag: Optional[bool] = field(default=None, metadata={"type": "Element"})
+    content: List[object] = field(default_factory=list, metadata={"type": "Wildcard", "namespace": "##any", "mixed": True})
